@@ -232,3 +232,19 @@ PROPS["C14"] = {
     "assumptions": [],
     "not_proved": ["compress_roundtrip (square root recovery)", "pkcs8_enc_roundtrip / wrong password rejected as theorems", "cipher_asn1_roundtrip as a theorem"],
 }
+
+PROPS["C09"] = {
+    "modules": ["Gmsm.Props.C09"],
+    "theorems": [
+        "Props.C09.sign_verify_consistent", "Props.C09.cross_family_rejected", "Props.C09.algo_tables_consistent",
+        "Props.C09.oid_injective", "Props.C09.creators_decide_by_signer_key", "Props.C09.default_sm2_mismatch_before_repair",
+    ],
+    "gen_items": ["x509."],
+    "gen_obligations": ["Gen.X509.details / verifyHash / defaults / signInput_* regenerated from x509/x509.go and utils.go (signatureAlgorithmDetails, the switch in checkSignature, signingParamsForPublicKey, the raw-vs-digest guard of the three creators)"],
+    "level": "proof",
+    "claim": "The decision tables of signing and verification are regenerated from the source on every run and the consistency theorem is exhaustive over them (the quantifier is the table): for every signer key family and every requested algorithm left to default or in-family, the creator accepts and the bytes the signer's scheme covers are exactly those the verifier checks for the algorithm recovered from the written OID; hash tables agree; OIDs identify algorithms. Whole objects are decided by the correspondence run: certificates, CSRs, v2 and legacy CRLs created from generated templates (negative / 20-byte serials, multi-valued and extra name attributes, UTCTime and GeneralizedTime validity, usages, constraints, SANs, name constraints, policies, extra extensions) x {SM2, RSA, ECDSA signer} x {unset, in-family, mismatching} algorithms are parsed back and compared field by field, verified under the issuer, refused under another key, and refused after every single-byte change (xor 0x01 and 0x80) of the signed bytes and of the signature BIT STRING incl. its unused-bits octet; a child issued under a parsed parent with an unusual subject must carry the parent's subject bytes and verify.",
+    "note": "Partial: the ASN.1 layer (encoding/asn1 reflection-based marshal/unmarshal) is trusted and exercised, not modelled; field round trips are intrinsic read-back oracles evaluated by the harness on the real code, the Lean side supplies the accept/reject decision and the table theorems.",
+    "trusted_base": ["extract/x509.go table extraction", "harness/c09.go template generator and field comparison", "crypto/rsa, crypto/ecdsa, encoding/asn1 (stdlib)"],
+    "assumptions": [],
+    "not_proved": ["ext_roundtrip_* (key-usage bit reversal, basic constraints, name constraints encoders) as Lean theorems", "verify_only_issuer over an ideal signature scheme (decided by the other-key and tamper sweeps)"],
+}
